@@ -110,7 +110,7 @@ class Prop:
         for i in range(6 if quick else 40):
             h = mut.gen_random(rng, rng.randint(10, 20), ntrees=1, ops=["meta"] * 7 + ["add"])
             yield dict(kind="hist", univ=h["univ"], ops=h["ops"])
-        nrand = 24 if quick else 450
+        nrand = 24 if quick else 380
         for i in range(nrand):
             n_ops = rng.randint(8, 25 if quick else 40)
             h = (mut.gen_malformed if i % 3 == 2 else mut.gen_random)(rng, n_ops)
